@@ -1,10 +1,11 @@
 CONSTANTS
  Copies = {"c1", "c2"}
  Confs <- AliasConfs
- MaxCloses = 2
- MaxOps = 0
+ MaxCloses = 3
+ MaxOps = 1
+ NormKeys = TRUE
  Eager = FALSE
 SPECIFICATION Spec
-INVARIANTS TypeOK LocksNonNeg LocksExact MarkIsReach
-PROPERTIES O1 O2 O3 O4
+INVARIANTS TypeOK LocksNonNeg LocksExact MarkIsReach FallbackPresent CopyKeeps
+PROPERTIES O1 O2 O3 O4 OnlyCloseDeletes
 CHECK_DEADLOCK FALSE
